@@ -971,6 +971,20 @@ func (e *SpecEnv) evalCall(x SCall) SV {
 	case "isElem":
 		// isElem(p): p points into a slice backing array (not a separately allocated object)
 		return SV{Term: fmt.Sprintf("((_ is elem) %s)", e.refOf(arg(0))), Typ: boolT}
+	case "arrOf":
+		// arrOf(p): identity of the backing array p points into (meaningful when isElem(p); compare with arr(s))
+		return SV{Term: fmt.Sprintf("(earr %s)", e.refOf(arg(0))), Typ: intT}
+	case "deref":
+		// deref(p): the value of the cell a pointer to a non-struct type points at (p of type *T; for slice
+		// elements the cell that s[i] reads) - lets a frame clause speak about every cell of an element type:
+		// forall p *any :: {deref(p)} allocated(p) && !(isElem(p) && arrOf(p) == old(arr(s))) ==> deref(p) == old(deref(p))
+		v := arg(0)
+		pt, ok := v.Typ.Underlying().(*types.Pointer)
+		if !ok || isStruct(pt.Elem()) {
+			e.fail("deref wants a pointer to a non-struct type, got %v", v.Typ)
+		}
+		h := e.G.TE.CellHeap(pt.Elem())
+		return SV{Term: fmt.Sprintf("(select %s %s)", e.Cur.Heap(h), v.Term), Typ: pt.Elem()}
 	case "unchangedExcept":
 		// unchangedExcept("T.f", "U.g", ...): every heap but the listed is equal on allocated refs
 		ex := map[string]bool{}
